@@ -1,4 +1,7 @@
 # C26 - File transfer and browsing stay inside the allowed paths
+#  * Creating the missing PARENT directories of an allowed destination (os.MkdirAll before an upload) is counted as part
+#    of creating that destination: with a pattern such as /r/*/a an upload to /r/x/a creates /r/x, which the pattern
+#    itself does not match; this is not reported (permissive reading).
 #
 # Interpretation (permissive side):
 #  * The verbs of the statement are read / write / create / list / chmod / delete.  Returning only METADATA of a path
@@ -23,9 +26,18 @@ SLOTS_T = [["r", "a"], ["r", "b"], ["r", "a", "a"], ["r", "a", "b"], ["r", "b", 
 LT_Q = [["abs", "o"], ["abs", "o", "a"], ["rel", "..", "o"], ["rel", "b"], ["abs", "o", "z"]]
 LT_T = LT_Q + [["abs", "r", "b"], ["rel", "..", "b"]]   # no target resolving to the world root (not modelled)
 PAT_ALL = [[], [["abs", "r"]], [["abs", "r", "*"]], [["abs", "r", "**"]], [F.WILD], [["abs", "r", "a"]]]
+# z never exists: requests with one, two and three missing trailing elements (also below a link at any depth)
 REQ_Q = [["abs", "r"], ["abs", "r", "a"], ["abs", "r", "b"], ["abs", "r", "a", "a"], ["abs", "r", "a", "b", "a"],
-         ["abs", "o", "a"], ["abs", "r", "..", "o", "a"], ["rel", "r", "a"], ["abs", "r", "^A"]]
-REQ_T = REQ_Q + [["abs", "r", "a", "b"], ["abs", "r", "b", "a"], ["abs", "r", "a", "z"], ["abs", "r", "a", "a", "z"]]
+         ["abs", "o", "a"], ["abs", "r", "..", "o", "a"], ["rel", "r", "a"], ["abs", "r", "^A"],
+         ["abs", "r", "a", "z", "z"], ["abs", "r", "a", "a", "z", "z"]]
+REQ_T = REQ_Q + [["abs", "r", "a", "b"], ["abs", "r", "b", "a"], ["abs", "r", "a", "z"], ["abs", "r", "a", "a", "z"],
+                 ["abs", "r", "a", "z", "z", "z"], ["abs", "r", "b", "z", "z"]]
+# inner-glob pattern forms (a "*" element that is not the last one): the base directory /r is wider than the pattern
+PAT_GLOB = [[["abs", "r", "*", "a"]], [["abs", "r", "*", "a"], ["abs", "r", "b", "b"]]]
+SLOTS_G = [["r", "a"], ["r", "b"], ["r", "a", "a"], ["r", "b", "b"]]
+LT_G = [["abs", "r", "b"], ["abs", "o"], ["rel", "..", "b", "b"]]
+REQ_G = [["abs", "r", "a", "a"], ["abs", "r", "a", "a", "a"], ["abs", "r", "a", "a", "b"], ["abs", "r", "b", "b"],
+         ["abs", "r", "b"], ["abs", "r", "a"], ["abs", "r", "a", "a", "z", "z"]]
 DEV_OF_OP = {"download": "DevFinalComponentOnly"}
 
 
@@ -35,7 +47,9 @@ def run(ctx):
     # 1a. every allowed-path form over the small trees; 1b. every tree (<= 2 links) under the prefix forms
     runs = [("MCAp", SLOTS_Q[:2], LT_Q[:3], PAT_ALL, reqs, 1, 1 if quick else 2),
             ("MCAt", slots, lts, [[["abs", "r"]], [["abs", "r", "a"]]] if not quick else [[["abs", "r"]]], reqs,
-             1 if quick else 2, 2 if quick else 3)]
+             1 if quick else 2, 2 if quick else 3),
+            # 1c. inner-glob patterns with links to siblings below the pattern's base directory
+            ("MCAg", SLOTS_G, LT_G, PAT_GLOB[:1] if quick else PAT_GLOB, REQ_G, 1 if quick else 2, 3)]
     edges, states = [], 0
     for tag, sl, lt, pats, rq, ml, mn in runs:
         r = F.a_run(ctx, sl, lt, pats, rq, ml, mn, tag=tag)
@@ -92,9 +106,10 @@ def run(ctx):
                               "the prediction for every enumerated case",
                               "bounded: slots %s, link targets %s, allowed-path forms %s, requests %s, one request per "
                               "tree" % (["/".join(s) for s in slots], ["/".join(t) for t in lts],
-                                        [["/".join(p) for p in c] for c in PAT_ALL], ["/".join(r) for r in reqs]),
+                                        [["/".join(p) for p in c] for c in PAT_ALL + PAT_GLOB], ["/".join(r) for r in reqs]),
                               "no concurrent modification between validation and use; ASCII names (Unicode "
-                              "normalisation of the validated vs. used path not modelled)"],
+                              "normalisation of the validated vs. used path not modelled); glob elements are whole-"
+                              "component '*' only (partial globs such as /r/a* not modelled)"],
                  states=states, transitions=len(cases), traces_validated_against_impl=summ["cases"], exhaustive=True,
                  replay_mismatches=summ["mismatches"], real_escapes=summ["escapes"], real_ops_ok=summ["ops_ok"],
                  real_ops_failed=summ["ops_failed"], per_op=summ["per_op"], deviations_caught=caught,
